@@ -1,6 +1,10 @@
 package main
 
-import "verifharness/tl"
+import (
+	"time"
+
+	"verifharness/tl"
+)
 
 // C07: clean shutdown. Families: cancellation at every park point (queue: before the blocking receive, after
 // take+count, before the blocking offer; worker: loop top, before its blocking receive; PushTask: both Done()
@@ -39,6 +43,14 @@ func shutdown(en *tl.Engine) {
 			en.IdleAfterWork(c[0], c[1], 2+c[1])
 			for v := 0; v < 8; v++ {
 				en.PushAfterCancelRoom(c[0], c[1], v)
+			}
+		}
+		// SetTimeout(0 / negative / 1ns) and the end of the context: >= 64 pushes onto lanes with room
+		for _, c := range [][2]int{{1, 1}, {2, 2}, {3, 3}} {
+			for _, to := range []time.Duration{0, -time.Second, 1} {
+				for v := 0; v < 3; v++ {
+					en.PushAfterCancelTimeouts(c[0], c[1], to, v)
+				}
 			}
 		}
 		en.TimeoutRaces(1, 1, 1)
